@@ -3,6 +3,7 @@ package main
 import (
 	"fmt"
 	"go/ast"
+	"go/token"
 	"go/types"
 	"strings"
 
@@ -59,8 +60,9 @@ func checkC11(p *Prog, r *Report) {
 		if id, ok := n.(*ast.Ident); ok {
 			if v, ok := p.Info.Defs[id].(*types.Var); ok {
 				switch {
-				case v.Type().String() == "bool" && hasConv == nil:
-					// the boolean that is tested together with the conversation comparison
+				case v.Type().String() == "bool" && hasConv == nil && assignedTrue(p, lp, v):
+					// the boolean that is tested together with the conversation comparison: the flag some arm sets to true
+					// (not the comma-ok result of the table lookup)
 					hasConv = v
 				}
 			}
@@ -93,6 +95,9 @@ func checkC11(p *Prog, r *Report) {
 	hasConv = nil
 	for _, b := range c.live {
 		ct := c.CondTerm(b)
+		if ct != nil && ct.Op == "&&" {
+			ct = Negate(ct) // the De Morgan spelling: hasConv && conv != s.kcp.conv guards the other arm
+		}
 		if ct == nil || ct.Op != "||" {
 			continue
 		}
@@ -837,4 +842,20 @@ func boolTable(p *Prog, fi *FuncInfo, role func(*Term) string, atoms []string) b
 		res.rows[env] = v
 	}
 	return res
+}
+
+// assignedTrue: some statement of fi assigns the constant true to v.
+func assignedTrue(p *Prog, fi *FuncInfo, v *types.Var) bool {
+	hit := false
+	inspectBody(fi, func(x ast.Node) bool {
+		if as, ok := x.(*ast.AssignStmt); ok && len(as.Lhs) == len(as.Rhs) {
+			for i, l := range as.Lhs {
+				if identVar(p, l) == v && p.Term(as.Rhs[i]).Op == "true" && as.Tok == token.ASSIGN {
+					hit = true
+				}
+			}
+		}
+		return true
+	})
+	return hit
 }
